@@ -192,6 +192,8 @@ def compare(c, o):
                 diffs.append(f"path {s['path']} != {exp['sent']['path']}")
             if s['kind'] != exp['sent']['kind']:
                 diffs.append(f"stub arity {s['kind']} != {exp['sent']['kind']}")
+        if not s.get('own', True):
+            diffs.append('the call went out on the channel of ANOTHER client instance')
         if s['msgs'] != exp['sent']['msgs']:
             diffs.append(f"payload {s['msgs']} != predicted {exp['sent']['msgs']}")
     if not ret:
